@@ -216,6 +216,8 @@ def check(pid, tier):
         print("  signature: %s (x%d)\n  %s" % (v["sig"], v["count"], v["detail"][:600]))
         reported.append(v["sig"])
         rc = max(rc, 1)
+    if reported:
+        rc = 1  # a deterministically replayed violation decides; non-reproducible ones were only logged above
     if len(new) > len(reported) and rc == 1:
         print("  (%d further unlisted violation signature(s) not written out)" % (len(new) - len(reported)))
     for fid, (fnd, cnt, sigs) in sorted(known_hit.items()):
